@@ -1535,8 +1535,9 @@ class Compiler:
 
         body = []
 
-        # Track the blocks of this translation
-        self._translations.append(set())
+        # Track the blocks of this translation (in the order in which
+        # they are written)
+        self._translations.append({})
 
         # Prepare new stream
         append = identifier("append", id(node))
@@ -1809,7 +1810,8 @@ class Compiler:
             raise TranslationError(
                 "Duplicate translation name: %s.", node.name)
 
-        self._translations[-1].add(node.name)
+        names = self._translations[-1]
+        names[node.name] = len(names)
         body = []
 
         # prepare new stream
@@ -2046,9 +2048,14 @@ class Compiler:
 
     def _get_translation_identifiers(self, name):
         assert self._translations
-        prefix = str(id(self._translations[-1])).replace('-', '_')
-        stream = identifier("stream_%s" % prefix, name)
-        append = identifier("append_%s" % prefix, name)
+        names = self._translations[-1]
+        prefix = str(id(names)).replace('-', '_')
+
+        # (names that differ only in characters which are not allowed in
+        # an identifier get variables of their own)
+        suffix = "%d_%s" % (names[name], name)
+        stream = identifier("stream_%s" % prefix, suffix)
+        append = identifier("append_%s" % prefix, suffix)
         return stream, append
 
     def _enter_assignment(self, names):
